@@ -1,6 +1,8 @@
 // Package bridge moves value trees into and out of the Go types emitted by the real
-// generator, by position (not by name), including unexported fields of readonly structs
-// and private definitions.
+// generator. Members are matched by NAME (the generator exports or lower-cases the first
+// letter, nothing else) with the position as fallback; Go fields that carry no schema member
+// (a cache, a scratch buffer a generator may add) are left alone. Unexported fields of
+// readonly structs and private definitions are reached through unsafe pointers.
 package bridge
 
 import (
@@ -108,7 +110,7 @@ func toGo(s *schema.Schema, t schema.Type, v val.Value, dst reflect.Value) error
 	case schema.KEnum:
 		return intToGo(v.U, dst)
 	case schema.KStruct:
-		if dst.Kind() != reflect.Struct || dst.NumField() != len(d.Fields) {
+		if dst.Kind() != reflect.Struct || dst.NumField() < len(d.Fields) {
 			return fmt.Errorf("struct %s: Go type %s does not have %d fields", d.Name, dst.Type(), len(d.Fields))
 		}
 		for i, f := range d.Fields {
@@ -116,17 +118,18 @@ func toGo(s *schema.Schema, t schema.Type, v val.Value, dst reflect.Value) error
 			if i < len(v.Elems) {
 				fv = v.Elems[i]
 			}
-			if err := toGo(s, f.Type, fv, field(dst, i)); err != nil {
+			if err := toGo(s, f.Type, fv, field(dst, byName(dst.Type(), f.Name, i))); err != nil {
 				return err
 			}
 		}
 		return nil
 	case schema.KMessage:
-		if dst.Kind() != reflect.Struct || dst.NumField() != len(d.Fields) {
+		if dst.Kind() != reflect.Struct || dst.NumField() < len(d.Fields) {
 			return fmt.Errorf("message %s: Go type %s does not have %d fields", d.Name, dst.Type(), len(d.Fields))
 		}
-		for i := range d.Fields {
-			field(dst, i).Set(reflect.Zero(dst.Field(i).Type()))
+		for i, f := range d.Fields {
+			k := byName(dst.Type(), f.Name, i)
+			field(dst, k).Set(reflect.Zero(dst.Field(k).Type()))
 		}
 		for _, mf := range v.Fields {
 			pos := -1
@@ -150,11 +153,12 @@ func toGo(s *schema.Schema, t schema.Type, v val.Value, dst reflect.Value) error
 		}
 		return nil
 	case schema.KUnion:
-		if dst.Kind() != reflect.Struct || dst.NumField() != len(d.Branches) {
+		if dst.Kind() != reflect.Struct || dst.NumField() < len(d.Branches) {
 			return fmt.Errorf("union %s: Go type %s does not have %d fields", d.Name, dst.Type(), len(d.Branches))
 		}
-		for i := range d.Branches {
-			field(dst, i).Set(reflect.Zero(dst.Field(i).Type()))
+		for i, b := range d.Branches {
+			k := byName(dst.Type(), b.Def.Name, i)
+			field(dst, k).Set(reflect.Zero(dst.Field(k).Type()))
 		}
 		if v.Body == nil {
 			return nil
@@ -162,7 +166,7 @@ func toGo(s *schema.Schema, t schema.Type, v val.Value, dst reflect.Value) error
 		set := func(disc uint8, body val.Value) error {
 			for i, b := range d.Branches {
 				if b.Disc == disc {
-					fd := field(dst, i)
+					fd := field(dst, byName(dst.Type(), b.Def.Name, i))
 					p := reflect.New(fd.Type().Elem())
 					if err := toGo(s, schema.Type{Named: b.Def.Name}, body, p.Elem()); err != nil {
 						return err
@@ -317,12 +321,12 @@ func fromGo(s *schema.Schema, t schema.Type, src reflect.Value, notes *Notes) (v
 		return intFromGo(src)
 	case schema.KStruct:
 		src = addressable(src)
-		if src.Kind() != reflect.Struct || src.NumField() != len(d.Fields) {
+		if src.Kind() != reflect.Struct || src.NumField() < len(d.Fields) {
 			return val.Value{}, fmt.Errorf("struct %s: Go type %s does not have %d fields", d.Name, src.Type(), len(d.Fields))
 		}
 		out := val.Value{}
 		for i, f := range d.Fields {
-			e, err := fromGo(s, f.Type, field(src, i), notes)
+			e, err := fromGo(s, f.Type, field(src, byName(src.Type(), f.Name, i)), notes)
 			if err != nil {
 				return out, err
 			}
@@ -331,7 +335,7 @@ func fromGo(s *schema.Schema, t schema.Type, src reflect.Value, notes *Notes) (v
 		return out, nil
 	case schema.KMessage:
 		src = addressable(src)
-		if src.Kind() != reflect.Struct || src.NumField() != len(d.Fields) {
+		if src.Kind() != reflect.Struct || src.NumField() < len(d.Fields) {
 			return val.Value{}, fmt.Errorf("message %s: Go type %s does not have %d fields", d.Name, src.Type(), len(d.Fields))
 		}
 		out := val.Value{}
@@ -352,13 +356,13 @@ func fromGo(s *schema.Schema, t schema.Type, src reflect.Value, notes *Notes) (v
 		return out, nil
 	case schema.KUnion:
 		src = addressable(src)
-		if src.Kind() != reflect.Struct || src.NumField() != len(d.Branches) {
+		if src.Kind() != reflect.Struct || src.NumField() < len(d.Branches) {
 			return val.Value{}, fmt.Errorf("union %s: Go type %s does not have %d fields", d.Name, src.Type(), len(d.Branches))
 		}
 		out := val.Value{}
 		n := 0
 		for i, b := range d.Branches {
-			p := field(src, i)
+			p := field(src, byName(src.Type(), b.Def.Name, i))
 			if p.IsNil() {
 				continue
 			}
